@@ -295,6 +295,12 @@ func ruleKeyScanSem(c *Ctx) {
 						if f.callbacks != 0 || f.nAdvance != 2 {
 							note("skip", "a member outside the filter is not simply stepped over", sp)
 						}
+						// the count of handled filter keys moves only for members that passed the filter
+						for _, ef := range sp.Effects {
+							if ef.Kind == "store" && ef.Target == "L:n" {
+								note("count", "a member outside the filter is counted as a handled filter key: the early exit (n == len(onlyKeys)) then fires before all requested members were seen", sp)
+							}
+						}
 					case selected && f.valSome:
 						if fn == "Object.ForEach" && f.callbacks != 1 {
 							note("callback", "a member that passed the filter is not called back", sp)
@@ -330,9 +336,9 @@ func ruleKeyScanSem(c *Ctx) {
 		} else if nCb < 1 || nCont < 2 || nEarly < 1 {
 			bad["shape"] = fmt.Sprintf("expected callback, continue and early-exit paths, got %d/%d/%d", nCb, nCont, nEarly)
 		}
-		sites := []string{"name", "continue", "found", "notfound", "callback", "delete", "skip", "early", "error", "return", "shape"}
+		sites := []string{"name", "continue", "found", "notfound", "callback", "delete", "skip", "count", "early", "error", "return", "shape"}
 		for _, s := range sites {
-			if fn == "Object.FindKey" && (s == "callback" || s == "delete" || s == "skip" || s == "early" || s == "error" || s == "return") {
+			if fn == "Object.FindKey" && (s == "callback" || s == "delete" || s == "skip" || s == "count" || s == "early" || s == "error" || s == "return") {
 				continue
 			}
 			if fn != "Object.FindKey" && (s == "found" || s == "notfound") {
